@@ -7,6 +7,8 @@ namespace ArvVerif.C17
 /-- a name that `namei` treats as an ordinary directory entry -/
 def CleanName (c : Name) : Prop := c ≠ "" ∧ c ≠ "." ∧ c ≠ ".."
 
+instance (c : Name) : Decidable (CleanName c) := by unfold CleanName; infer_instance
+
 /-- every component of every path of the host tree is an ordinary name, and no path is listed twice -/
 structure HostWF (h : Host) : Prop where
   clean : ∀ e ∈ h, ∀ c ∈ e.1, CleanName c
